@@ -405,7 +405,10 @@ PROPS = {
         assumptions=["'for all interleavings' is approached by stress, scheduler seeds and race detectors, not enumerated"],
     ),
     "C15": dict(
-        jobs=lambda tier: [shards("release", 16, None, stall_s=60, cap_mb=320)],
+        jobs=lambda tier: [shards("release", 12, None, stall_s=60, cap_mb=320), shards("debug", 12, None, stall_s=60, cap_mb=320)],
+        # an abort by the allocation cap is the same finding as an in-process "mem" verdict, a watchdog /
+        # stall kill the same as an in-process "time" verdict: one signature per (instruction, operand class, resource)
+        supervisor_signature=lambda kind, who: "%s|%s" % (who, {"alloc_cap": "mem", "hang": "time"}.get(kind, kind)),
         eval_keys=["steps"],
         rule="every registered instruction that takes an INTEGER or FLOAT operand x each operand position x integer probes "
              "{-MAX,-10^6,-1,0,1,10^3,10^6,10^9,MAX} / float probes {+-1e30,+-inf,NaN,0.5} x 2 settings of the other operands, on a tiny state, one "
